@@ -37,6 +37,36 @@ def dur_features(P, steps):
     return sorted(fs)
 
 
+def _fluent_occurrences(e, out):
+    if e["op"] == "fluent":
+        out.append((e["name"], repr(e["args"])))
+    for a in e.get("args", []):
+        _fluent_occurrences(a, out)
+
+
+def alias_feature(P, steps):
+    """a start effect writes F(args) while an end-time condition / effect of the same action reads F with
+    syntactically different arguments (they may denote the same ground fluent)"""
+    acts = {a["name"]: a for a in P["actions"]}
+    for st in steps:
+        a = acts[st["a"]]
+        if a["kind"] != "dur":
+            continue
+        starts = [(e["e"]["f"]["name"], repr(e["e"]["f"]["args"])) for e in a["effects"] if e["t"]["from"] == "start"]
+        reads = []
+        for c in a["conds"]:
+            if c["iv"]["hi"]["from"] == "end" or c["iv"]["lo"]["from"] == "end":
+                _fluent_occurrences(c["c"], reads)
+        for e in a["effects"]:
+            if e["t"]["from"] == "end":
+                _fluent_occurrences(e["e"]["v"], reads)
+                _fluent_occurrences(e["e"]["c"], reads)
+        for (n, ar) in starts:
+            if any(n == rn and ar != rar for (rn, rar) in reads):
+                return ["alias"]
+    return []
+
+
 def worker(job):
     cid, P, L, cap, seed = job
     from unified_planning.engines.compilers.timed_to_sequential import TimedToSequential
@@ -141,6 +171,9 @@ def run(ctx):
             pl = r["plans"][pi - 1]
             feats = dur_features(r["P"], pl["tau"]) if pl["tau"] else []
             sig = clause + ("|" + ",".join(feats) if feats and "duration" in clause else "")
+            if "duration" not in clause and pl["tau"]:
+                al = alias_feature(r["P"], pl["tau"])
+                sig += ("|" + ",".join(al)) if al else ""
             ctx.violation(sig, "C28: %s" % clause, {"clause": clause, "problem": r["P"], "compiled": r["Q"], "plan": pl})
     ctx.cov["evaluations"] = nplans
     ctx.cov["traces_validated_against_impl"] = nplans
